@@ -385,6 +385,76 @@ def run(chk):
         chk.ok("C08.eof", r[0], "at_eof() = eof fed and buffer empty (end-of-stream only after all data)")
     else:
         chk.violation("C08.eof", ae, "return self._eof and not self._buffer", "", "at_eof() reports end of stream while data is still buffered")
+    hunt5_rules(chk, repo)
+
+
+def hunt5_rules(chk, repo):
+    """Rules written after the fifth defect hunt (F301-F303): a reader of a body stream is told when its connection goes away - and only then."""
+    CP, WP, WQ = "aiohttp/client_proto.py", "aiohttp/web_protocol.py", "aiohttp/web_request.py"
+    # ---- C08.lost.client: whoever lets go of an unfinished response body wakes its reader -----------------------------------------------------------------
+    # connection_lost() fails the payload it still knows.  close() and abort() (connector / session close) forget it first, so connection_lost()
+    # finds nothing: a task waiting in resp.content.read() would stay blocked for ever (total=None) although the connection is gone.
+    rh = repo.cls(CP, "ResponseHandler")
+    n = 0
+    for name, fn in rh.methods.items():
+        if name in ("__init__", "connection_lost"):
+            continue
+        drops = [a for a in ast.walk(fn.node) if isinstance(a, ast.Assign) and norm.raw(a.targets[0]) == "self._payload" and isinstance(a.value, ast.Constant) and a.value.value is None]
+        gone = [c for c in prog.calls_in(fn.node) if norm.raw(c.func) in ("transport.close", "transport.abort", "self.transport.close", "self.transport.abort")]
+        if not drops or not gone:
+            continue
+        g = cfg_of(fn.node)
+        dn = [x for x in g.nodes if x.in_finally_copy is None and any(x.ast is d for d in drops)]
+        gn = [x for x in g.nodes if x.in_finally_copy is None and isinstance(getattr(x, "ast", None), ast.AST) and any(c in gone for c in K.node_calls(x))]
+        # the payload is dropped on a path on which the transport was closed
+        dn = [d for d in dn if g.find_path(gn, lambda x, d=d: x is d, lambda x: False, EXPLICIT) is not None]
+        if not dn:
+            continue
+        n += 1
+        def wakes(x):
+            if x.kind != "stmt" or not isinstance(getattr(x, "ast", None), ast.AST):
+                return False
+            for c in K.node_calls(x):
+                f = norm.raw(c.func)
+                if f in ("set_exception", "set_result") and c.args and "_payload" in norm.raw(c.args[0]):
+                    return True
+                if f.startswith("self.") and f[5:] in rh.methods and any("_waiter" in norm.raw(y) or "set_exception" in norm.raw(y) for y in ast.walk(rh.methods[f[5:]].node) if isinstance(y, (ast.Attribute, ast.Name))) and "_payload" in norm.raw(rh.methods[f[5:]].node):
+                    return True
+            return False
+        p_ = g.find_path([g.entry], lambda x: x in dn, wakes, EXPLICIT)
+        if p_ is None:
+            chk.ok("C08.lost.client", drops[0], f"ResponseHandler.{name}(): the reader of an unfinished body is woken (it then finds the connection closed) before the payload is forgotten")
+        else:
+            chk.violation("C08.lost.client", drops[0], K.short(drops[0]), "self._wake_payload_reader()  (or set_exception(self._payload, ...)) before self._payload = None",
+                          f"ResponseHandler.{name}() closes the transport and forgets the response body without telling its reader: a task waiting in resp.content.read() with 10 of 100 declared bytes received stays blocked after another task ran session.close() - for ever with total=None - because connection_lost() has no stream left to fail", path=g.fmt_path(p_))
+    chk.expect_count("C08.lost.client", n, 2, "methods of ResponseHandler that close the transport and drop the payload")
+    # ---- C08.lost.server: the request stays registered with the protocol for as long as its body may be read -------------------------------------------------
+    # connection_lost() and shutdown() fail the body of self._current_request.  Writing the response may still read it (a response built on
+    # request.content, an on_response_prepare signal): the registration covers finish_response() as well, i.e. it is cleared where
+    # _request_in_progress is.
+    hr = repo.func(WP, "RequestHandler._handle_request")
+    clr = [a for a in ast.walk(hr.node) if isinstance(a, ast.Assign) and norm.raw(a.targets[0]) == "self._current_request" and isinstance(a.value, ast.Constant) and a.value.value is None]
+    fins = [c for c in prog.calls_in(hr.node) if norm.raw(c.func) == "self.finish_response"]
+    if not clr or not fins:
+        chk.analysis_error("C08.lost.server: `self._current_request = None` / finish_response() not found in RequestHandler._handle_request")
+    else:
+        early = [a for a in clr if any(a.lineno < c.lineno for c in fins)]
+        outer = [a for a in clr if K.in_finally(a) is not None and all(K.in_finally(a).lineno <= c.lineno for c in fins)]
+        if not early and outer:
+            chk.ok("C08.lost.server", outer[0], "_handle_request(): the request is unregistered in the finally that covers the handler and every finish_response()")
+        else:
+            chk.violation("C08.lost.server", (early or clr)[0], K.short((early or clr)[0]), "self._current_request = None in the outer finally, next to self._request_in_progress = False",
+                          "the request is unregistered as soon as the handler returned, before finish_response() runs: with `return web.Response(body=request.content)` (or an on_response_prepare signal that reads the body) a client that aborts its upload leaves StreamReader.readany() waiting for ever - connection_lost() fails the body only through _current_request - and with handler_cancellation off the task, the request and its buffers leak until shutdown")
+    # ---- C08.lost.complete: a body that was received completely stays readable -------------------------------------------------------------------------------
+    cn = repo.func(WQ, "BaseRequest._cancel")
+    se = [c for c in prog.calls_in(cn.node) if norm.raw(c.func) == "set_exception" and c.args and "_payload" in norm.raw(c.args[0])]
+    if not se:
+        chk.analysis_error("C08.lost.complete: set_exception(self._payload, ...) not found in BaseRequest._cancel")
+    elif all(any(not l.pos and l.text.endswith(".is_eof()") for l in PC.units(PC.pc(K.stmt_of(c), raw=True))) for c in se):
+        chk.ok("C08.lost.complete", se[0], "BaseRequest._cancel(): only a body that is still incomplete is failed (the client protocol does the same)")
+    else:
+        chk.violation("C08.lost.complete", se[0], K.short(se[0]), "if not self._payload.is_eof(): set_exception(...)",
+                      "a lost connection fails the request body whatever its state: a POST whose 1000 declared bytes have all arrived becomes unreadable when the client closes - the running handler's `await request.read()` raises ConnectionResetError although request.content.is_eof() is True and every byte is buffered (the bytes received are not the bytes returned)")
 
 
 def _balance(chk, fn, subject: str, updates, store_pat):
